@@ -13,14 +13,15 @@ EXTENDS Naturals, Sequences, FiniteSets, TLC, Json, IOUtils
 
 CONSTANTS Sources,      \* ids of source modules (universe modules and fault-injected ones)
           Options,      \* the documented code-generation options
-          AllSubsets    \* thorough: every subset of Options; quick: none, each alone, all
+          AllSubsets    \* thorough: every subset of Options; quick: none, each alone, every pair, all
 
 VARIABLES run, stage, l
 pvars == <<run, stage, l>>
 
 RECURSIVE SetSeqP(_)
 SetSeqP(S) == IF S = {} THEN <<>> ELSE LET x == CHOOSE y \in S : TRUE IN <<x>> \o SetSeqP(S \ {x})
-OptionSets == IF AllSubsets THEN SUBSET Options ELSE {{}} \cup {{o} : o \in Options} \cup {Options}
+OptionSets == IF AllSubsets THEN SUBSET Options
+              ELSE {{}} \cup {{o} : o \in Options} \cup {{o1, o2} : o1 \in Options, o2 \in Options} \cup {Options}
 
 Init == /\ \E s \in Sources : \E os \in OptionSets : run = [src |-> s, opts |-> SetSeqP(os)]
         /\ stage = "idle" /\ l = 0
